@@ -448,3 +448,68 @@ func panicParity(p1 *Program, f1 *ssa.Function, p2 *Program, f2 *ssa.Function) (
 	}
 	return
 }
+
+// flagParity: one function, all assignments of its CPU feature flags: the panic behaviour must
+// not depend on the flags (the accelerated arm has the preconditions of the portable arm).
+func flagParity(p *Program, f *ssa.Function) (cases int, diffs []string) {
+	ins := sliceInputs(f)
+	if len(ins) == 0 {
+		return 0, nil
+	}
+	reps := lengthRepresentatives(f)
+	n := len(ins)
+	idx := make([]int, n)
+	for {
+		l := map[ssa.Value]int64{}
+		var desc []string
+		for i := 0; i < n; i++ {
+			l[ins[i]] = reps[idx[i]]
+			desc = append(desc, fmt.Sprintf("len(%s)=%d", ins[i].Name(), reps[idx[i]]))
+		}
+		cases++
+		probe := &parityEval{p: p, budget: 400, seenFlags: map[string]bool{}}
+		probe.run(f, l, map[ssa.Value]int64{})
+		var names []string
+		for nme := range probe.seenFlags {
+			names = append(names, nme)
+		}
+		sort.Strings(names)
+		if len(names) > 3 {
+			names = names[:3]
+		}
+		if len(names) > 0 {
+			base := (&parityEval{p: p, budget: 400, flags: map[string]bool{}}).run(f, l, map[ssa.Value]int64{})
+			allFalse := map[string]bool{}
+			for _, nme := range names {
+				allFalse[nme] = false
+			}
+			base = (&parityEval{p: p, budget: 400, flags: allFalse}).run(f, l, map[ssa.Value]int64{})
+			for mask := 1; mask < 1<<len(names); mask++ {
+				flags := map[string]bool{}
+				var fd []string
+				for i, nme := range names {
+					flags[nme] = mask&(1<<i) != 0
+					fd = append(fd, fmt.Sprintf("%s=%v", nme[strings.LastIndex(nme, ".")+1:], flags[nme]))
+				}
+				o := (&parityEval{p: p, budget: 400, flags: flags}).run(f, l, map[ssa.Value]int64{})
+				if (o == outPanic && base == outNoPanic) || (o == outNoPanic && base == outPanic) {
+					w := map[outcome]string{outPanic: "panics", outNoPanic: "does not panic"}
+					diffs = append(diffs, fmt.Sprintf("%s: with %s it %s, with all flags off it %s", strings.Join(desc, ","), strings.Join(fd, ","), w[o], w[base]))
+				}
+			}
+		}
+		k := 0
+		for k < n {
+			idx[k]++
+			if idx[k] < len(reps) {
+				break
+			}
+			idx[k] = 0
+			k++
+		}
+		if k == n {
+			break
+		}
+	}
+	return
+}
